@@ -798,10 +798,11 @@ func c13Name(r *Rec, used map[string]bool) string {
 		}
 		s := string(b)
 		if r.Rng.Intn(4) == 0 && len(used) > 0 {
-			// extension of an existing name by a character sorting below '/' ('-', '+', '#', '.'): key order != name order
+			// extension of an existing name: by a character sorting below '/' ('-', '+', '#', '.': key order != name order)
+			// or above it (letters, digits, '_', '<', '>', '[', ']': the longer name's keys start with the shorter name's)
 			for u := range used {
 				if len(u) < 60 {
-					s = u + string("-+#."[r.Rng.Intn(4)]) + s[:1]
+					s = u + c13Ext(r) + s[:r.Rng.Intn(2)]
 				}
 				break
 			}
@@ -811,6 +812,132 @@ func c13Name(r *Rec, used map[string]bool) string {
 			return s
 		}
 	}
+}
+
+var c13ExtBefore = "-+#."                                                                // sort before '/'
+var c13ExtAfter = "abcxyzABCXYZ0123456789_<>[]"                                          // sort after '/'
+
+func c13Ext(r *Rec) string {
+	if r.Rng.Intn(3) == 0 {
+		return string(c13ExtBefore[r.Rng.Intn(len(c13ExtBefore))])
+	}
+	return string(c13ExtAfter[r.Rng.Intn(len(c13ExtAfter))])
+}
+
+// a family of valid chain names in which one name is a proper prefix of the others, extended by letters, digits and every
+// allowed punctuation character (both the ones sorting before '/' and the ones sorting after it)
+func c13PrefixFamily(r *Rec) (fam []string, after, before int) {
+	base := []string{"bsc", "eth", "chain1", "abc", "tele", "A-b", "x_y", "n0.", "q[1]"}[r.Rng.Intn(9)]
+	if r.Rng.Intn(3) == 0 {
+		b := make([]byte, 3+r.Rng.Intn(4))
+		for i := range b {
+			b[i] = c13Charset[r.Rng.Intn(len(c13Charset))]
+		}
+		base = string(b)
+	}
+	fam = []string{base}
+	seen := map[string]bool{base: true}
+	for n := 1 + r.Rng.Intn(4); n > 0; n-- {
+		from := fam[r.Rng.Intn(len(fam))] // chains of extensions: chain1 / chain10 / chain10x
+		var e string
+		switch r.Rng.Intn(4) {
+		case 0:
+			e = string(c13ExtBefore[r.Rng.Intn(len(c13ExtBefore))])
+		case 1:
+			e = []string{"test", "2", "0", "_x", "<", ">", "[", "]", "Z"}[r.Rng.Intn(9)]
+		default:
+			e = string(c13ExtAfter[r.Rng.Intn(len(c13ExtAfter))])
+		}
+		if r.Rng.Intn(3) == 0 {
+			e += string(c13Charset[r.Rng.Intn(len(c13Charset))])
+		}
+		m := from + e
+		if seen[m] || len(m) > 64 {
+			continue
+		}
+		seen[m] = true
+		fam = append(fam, m)
+		if e[0] > '/' {
+			after++
+		} else {
+			before++
+		}
+	}
+	return
+}
+
+// packet state, clients, consensus states and relayers on prefix-related chain names, as source AND destination, with equal
+// and with different sequences on the related paths
+func (w *c13World) genPrefixRelated(r *Rec, emit func(string), used map[string]bool) {
+	fam, after, before := c13PrefixFamily(r)
+	if len(fam) < 2 {
+		return
+	}
+	r.Stats["family.after-slash"] += after
+	r.Stats["family.before-slash"] += before
+	other := []string{"teleport", "zzz", fam[0], fam[len(fam)-1]}[r.Rng.Intn(4)]
+	kinds := []string{"commit", "ack", "receipt", "nextseq"}
+	for rounds := 1 + r.Rng.Intn(4); rounds > 0; rounds-- {
+		kind := kinds[r.Rng.Intn(4)]
+		role := r.Rng.Intn(3) // 0: family as destination, 1: as source, 2: both
+		equal := r.Rng.Intn(2) == 0
+		q := 1 + uint64(r.Rng.Intn(12))
+		for i, m := range fam {
+			src, dst := other, m
+			switch role {
+			case 1:
+				src, dst = m, other
+			case 2:
+				src, dst = m, fam[(i+1)%len(fam)]
+			}
+			qq := q
+			if !equal {
+				qq = q + uint64(i)*uint64(1+r.Rng.Intn(9))
+			}
+			switch kind {
+			case "commit", "ack":
+				emit(fmt.Sprintf("%s %s %s %d %s", kind, hxs(src), hxs(dst), qq, hx(c13Bytes(r, 32))))
+			default:
+				emit(fmt.Sprintf("%s %s %s %d", kind, hxs(src), hxs(dst), qq))
+			}
+		}
+		r.Count("family." + kind)
+		r.Count([]string{"family.dst", "family.src", "family.both"}[role])
+		if equal {
+			r.Count("family.equal-seq")
+		} else {
+			r.Count("family.diff-seq")
+		}
+	}
+	// clients + consensus states under prefix-related names
+	if r.Rng.Intn(2) == 0 {
+		ntypes := []string{"tm", "bsc", "eth", "tss"}
+		for _, m := range fam {
+			if used[m] {
+				continue
+			}
+			used[m] = true
+			cl := w.genCreate(r, ntypes[r.Rng.Intn(4)], m, emit)
+			if cl.ty != "tss" {
+				h := clienttypes.NewHeight(c13Rev(r), 1+c13U64(r)%1000000)
+				cons := w.genConsFor(r, cl, h)
+				emit(fmt.Sprintf("cons %s %d %d %s %s", hxs(cl.chain), h.RevisionNumber, h.RevisionHeight, hx(w.consBlob(cons)), b01(cons.ValidateBasic() == nil)))
+				if cl.ty == "tm" {
+					emit(fmt.Sprintf("tmmeta %s %d %d %d", hxs(cl.chain), h.RevisionNumber, h.RevisionHeight, uint64(1700000000000000000+r.Rng.Int63n(1000000000000))))
+				}
+			}
+			r.Count("family.client")
+		}
+	}
+	// relayers whose addresses (store keys "relayers<address>") and chain lists are prefix-related
+	if r.Rng.Intn(2) == 0 {
+		for i, m := range fam {
+			ir := clienttypes.IdentifiedRelayer{Address: m, Chains: []string{fam[(i+1)%len(fam)], m}, Addresses: []string{"0x" + m, common.BytesToAddress(c13Bytes(r, 20)).Hex()}}
+			emit("relayer " + hx(w.app.AppCodec().MustMarshal(&ir)))
+			r.Count("family.relayer")
+		}
+	}
+	r.Count("family.cases")
 }
 
 // heights biased to the bytes 0x2f, 0x00, 0xff
@@ -1106,6 +1233,9 @@ func (w *c13World) genHistory(r *Rec, emit func(string), size int) {
 		}
 		r.Count("packet")
 	}
+	if r.Rng.Intn(2) == 0 {
+		w.genPrefixRelated(r, emit, used)
+	}
 	// aggregate token pairs (each denomination / contract used once, as the registry guarantees)
 	for i := r.Rng.Intn(size + 1); i > 0; i-- {
 		tp := aggregatetypes.TokenPair{ERC20Address: common.BytesToAddress(c13Bytes(r, 20)).Hex(), Enabled: r.Rng.Intn(2) == 0, ContractOwner: aggregatetypes.Owner(1 + r.Rng.Intn(2))}
@@ -1243,6 +1373,29 @@ func c13WriteCorpus(t *testing.T, r *Rec, dir string) {
 		}},
 		{"known-bsc-no-validators", func(emit func(string)) {
 			w.genCreateAt(r, "bsc", "bsc-empty", emit, c13Fix{set: true, rev: 0, h: 200, nval: 0})
+		}},
+		{"prefix-related-names", func(emit func(string)) {
+			// destination / source names where one is a proper prefix of the other and the next character sorts AFTER '/':
+			// "commitments/a/bsctest/…" starts with "commitments/a/bsc" — every key must be parsed on its own
+			for _, pr := range [][2]string{{"bsc", "bsctest"}, {"eth", "eth2"}, {"chain1", "chain10"}, {"abc", "abc_"}, {"abc", "abc["}, {"abc", "abc-"}} {
+				for _, o := range []string{"teleport", pr[0]} {
+					for _, m := range pr {
+						emit(fmt.Sprintf("commit %s %s %d %s", hxs(o), hxs(m), 1, hx(c13Bytes(r, 32))))
+						emit(fmt.Sprintf("ack %s %s %d %s", hxs(o), hxs(m), 1, hx(c13Bytes(r, 32))))
+						emit(fmt.Sprintf("receipt %s %s %d", hxs(o), hxs(m), 1))
+						emit(fmt.Sprintf("nextseq %s %s %d", hxs(o), hxs(m), 5+len(m)))
+						emit(fmt.Sprintf("commit %s %s %d %s", hxs(m), hxs(o), 2, hx(c13Bytes(r, 32))))
+						emit(fmt.Sprintf("nextseq %s %s %d", hxs(m), hxs(o), 7+len(m)))
+					}
+				}
+				emit(fmt.Sprintf("commit %s %s %d %s", hxs("teleport"), hxs(pr[1]), 3, hx(c13Bytes(r, 32))))
+			}
+			for i, n := range []string{"bsc", "bsctest", "eth", "eth2", "chain1", "chain10"} {
+				cl := w.genCreateAt(r, []string{"bsc", "bsc", "eth", "eth", "tm", "tm"}[i], n, emit, c13Fix{set: true, rev: 0, h: 7, nval: 1})
+				upd(emit, cl, 0, 8)
+				ir := clienttypes.IdentifiedRelayer{Address: n, Chains: []string{n}, Addresses: []string{"0x" + n}}
+				emit("relayer " + hx(w.app.AppCodec().MustMarshal(&ir)))
+			}
 		}},
 		{"name-order-vs-key-order", func(emit func(string)) {
 			// "ab-c" sorts before "ab" as a key ("ab-" < "ab/") but after it as a name
